@@ -5,7 +5,7 @@ operation files on the implementation and on the model, comparison, shrinking, e
 import hashlib, json, os, random, re, shutil, subprocess, sys, time
 
 VERIF = os.path.dirname(os.path.dirname(os.path.abspath(__file__)))     # /verif, or a snapshot of it (vp run)
-REPO = '/repo'
+REPO = os.environ.get('VERIF_REPO', '/repo')      # the registered checks use /repo; seeded-change trials point this at a scratch worktree
 BUILD = os.path.join(VERIF, 'build')
 COQ = os.path.join(VERIF, 'coq')
 HARNESS = os.path.join(BUILD, 'cargo-target', 'debug', 'harness')
@@ -45,7 +45,17 @@ def build_harness(release=False):
     """cargo build of the runner against /repo's current working tree, hooks on. Returns (ok, log)."""
     os.makedirs(BUILD, exist_ok=True)
     cmd = ['cargo', 'build', '--offline'] + (['--release'] if release else [])
-    r = sh(cmd, cwd=os.path.join(VERIF, 'harness'), timeout=1800)
+    hdir = os.path.join(VERIF, 'harness')
+    if REPO != '/repo':
+        # same runner, path dependency pointed at the other tree
+        alt = os.path.join(BUILD, 'harness_alt')
+        shutil.rmtree(alt, ignore_errors=True)
+        shutil.copytree(hdir, alt)
+        ct = os.path.join(alt, 'Cargo.toml')
+        txt = open(ct).read().replace('path = "/repo"', 'path = "%s"' % REPO)
+        open(ct, 'w').write(txt)
+        hdir = alt
+    r = sh(cmd, cwd=hdir, timeout=1800)
     return r.returncode == 0, r.stdout + r.stderr
 
 
